@@ -7,11 +7,19 @@
    What is proved (hence `_partial`): for every (function, argument) that library.py declares `integer: True` and that is
    modelled, replacing that argument by ANY other spelling of the same integral number (int <-> any float whose exact value
    is that integer, no size bound) gives the IDENTICAL result, failure and heap, for arbitrary other arguments (any number,
-   any types, any heap).  Not proved: respelling numbers that are stored or compared as VALUES (array elements, needles,
-   values inside the heap) - there the results are equal only up to spelling; that part is covered by the differential run. *)
-From Coq Require Import ZArith List.
+   any types, any heap).
+   SECOND PART (below, `C12_respelling_simulation` ...): numbers stored or compared as VALUES (array elements, needles, values
+   inside objects, every number inside the heap) respelt as well.  The results are then equal only UP TO SPELLING, and that
+   is what is proved, for all 37 modelled functions and any arguments / heap: the relation `vsim` / `hsim` / `rsim` (same shape,
+   same locations, same strings ...; two numbers related iff identical or both integral with the same exact value), including
+   the failure cases (same kind of failure, failure values related) and the heap afterwards.  The design's functional form
+   (`respell` through arguments and heap) is `C12_spelling_invariant`.  With `=` instead of `~` the statement is false
+   (`C12_identical_results_refuted`).  Printing functions are outside Model/LibSeq.v; `C12_stringNew_neg_zero_refuted` records
+   the one integral float below 1e16 whose text differs from its int's (-0.0). *)
+From Coq Require Import ZArith List SpecFloat.
 From BS Require Import Model.Base Model.Num Model.LibVal Gen.ArgSpecs Model.LibSeq Proofs.C15 Proofs.C12
-  Proofs.C12a Proofs.C12b Proofs.C12c Proofs.C12d Proofs.C12e Proofs.C12f.
+  Proofs.C12a Proofs.C12b Proofs.C12c Proofs.C12d Proofs.C12e Proofs.C12f
+  Proofs.C12sim Proofs.C12simk Proofs.C12siml Proofs.C12simf Proofs.C12simx Proofs.C12simr.
 Local Open Scope Z_scope.
 
 (* an int and a float are spellings of one number iff the float's exact value is that integer *)
@@ -93,3 +101,134 @@ Theorem C12_coverage :
   /\ forallb (fun f => negb (str_mem f modelled_functions)) spelling_oracle_only = true.
 Proof. exact (conj integer_args_covered (conj modelled_integer_args_proved oracle_only_not_modelled)). Qed.
 Print Assumptions C12_coverage.
+
+(* ============================================================================================================================
+   THE SIMULATION: equal up to the spelling of integral numbers.
+   Relations (Proofs/C12sim.v):
+     vsim : VNum n1 ~ VNum n2 when nsim n1 n2 (identical, or both integral with the same exact value: 2 ~ 2.0, 0 ~ 0.0 ~ -0.0,
+            no magnitude bound; a non-integral number, an infinity, a nan only ~ itself); every other value only ~ itself
+            (same string, same boolean, same date, SAME LOCATION);
+     csim / hsim : cells of the same kind, elementwise vsim (objects: same keys in the same order); heaps cellwise;
+     rsim : LOk v ~ LOk v' and LArgsErr v ~ LArgsErr v' when vsim v v'; every other outcome (LRaise, LOutOfModel, LFuel, LStuck)
+            only ~ itself. *)
+Definition sim_functions : list str := modelled_functions.
+Theorem C12_sim_functions_cover_the_model :
+  length sim_functions = 37%nat /\ forallb (fun f => str_mem f sim_functions) modelled_functions_listed = true
+  /\ forallb (fun fa => str_mem (fst fa) sim_functions || str_mem (fst fa) spelling_oracle_only) gen_integer_args = true.
+Proof. exact sim_functions_cover. Qed.
+Print Assumptions C12_sim_functions_cover_the_model.
+
+(* the relation is an equivalence (so it composes along a script) *)
+Theorem C12_vsim_equivalence :
+  (forall v, vsim v v) /\ (forall a b, vsim a b -> vsim b a) /\ (forall a b c, vsim a b -> vsim b c -> vsim a c).
+Proof. exact (conj vsim_refl (conj vsim_sym vsim_trans)). Qed.
+Print Assumptions C12_vsim_equivalence.
+Theorem C12_hsim_equivalence :
+  (forall h, hsim h h) /\ (forall a b, hsim a b -> hsim b a) /\ (forall a b c, hsim a b -> hsim b c -> hsim a c).
+Proof. exact (conj hsim_refl (conj hsim_sym hsim_trans)). Qed.
+Print Assumptions C12_hsim_equivalence.
+
+(* Python's == on numbers does not see the spelling of EITHER operand ... *)
+Theorem C12_number_equality_respects_spelling : forall a a' b b', nsim a a' -> nsim b b' -> num_eq a b = num_eq a' b'.
+Proof. exact num_eq_sim. Qed.
+Print Assumptions C12_number_equality_respects_spelling.
+(* ... hence neither does the deep comparison used by arrayIndexOf / arrayLastIndexOf (value_compare(a, b) == 0), through
+   nested arrays and objects, with the same fuel outcome *)
+Theorem C12_deep_equality_respects_spelling : forall fuel h h' a a' b b', hsim h h' -> vsim a a' -> vsim b b' ->
+  veq fuel h a b = veq fuel h' a' b'.
+Proof. intros fuel h h' a a' b b' H. exact (veq_sim fuel h h' H a a' b b'). Qed.
+Print Assumptions C12_deep_equality_respects_spelling.
+
+(* argument validation over the generated table: same verdict, validated arguments related *)
+Theorem C12_validation_respects_spelling : forall h h' specs args args', hsim h h' ->
+  Forall (fun sp => int_bounds sp = true) specs -> Forall2 vsim args args' ->
+  vrsim (args_validate h specs args) (args_validate h' specs args').
+Proof. intros h h' specs args args' H B. exact (args_validate_sim h h' specs H B args args'). Qed.
+Print Assumptions C12_validation_respects_spelling.
+
+(* THE THEOREM.  (The premise `In f sim_functions` is the coverage datum; for any other name both sides are LOutOfModel.) *)
+Theorem C12_respelling_simulation : forall f args args' h h', In f sim_functions ->
+  Forall2 vsim args args' -> hsim h h' ->
+  rsim (fst (lib f args h)) (fst (lib f args' h')) /\ hsim (snd (lib f args h)) (snd (lib f args' h')).
+Proof. intros f args args' h h' _. exact (lib_sim f args args' h h'). Qed.
+Print Assumptions C12_respelling_simulation.
+
+(* the design's functional form: respell every number that has another spelling, in the arguments and in the whole heap *)
+Theorem C12_spelling_invariant : forall f vs h, In f sim_functions ->
+  let (r, h1) := lib f vs h in
+  let (r', h1') := lib f (map respell vs) (respell_heap h) in
+  rsim (respell_res r) r' /\ hsim (respell_heap h1) h1'.
+Proof. intros f vs h _. exact (lib_respell f vs h). Qed.
+Print Assumptions C12_spelling_invariant.
+(* respell really swaps: every int up to 2^53 (so every |n| < 1e15) becomes float(n), which is exactly n, and comes back *)
+Theorem C12_respell_swaps : forall z, Z.abs z <= 2 ^ 53 ->
+  respell (VNum (NInt z)) = VNum (NFlt (Z_to_sf z)) /\ integral (NFlt (Z_to_sf z)) z /\ respell (respell (VNum (NInt z))) = VNum (NInt z).
+Proof. exact respell_swaps. Qed.
+Print Assumptions C12_respell_swaps.
+
+(* whole scripts: straight-line histories of calls whose literals differ in spelling, from related environments and heaps *)
+Theorem C12_history_simulation : forall ops ops' e e' h h', Forall2 opsim ops ops' -> Forall2 vsim e e' -> hsim h h' ->
+  stsim (run_ops ops (e, h)) (run_ops ops' (e', h')).
+Proof. exact run_ops_sim. Qed.
+Print Assumptions C12_history_simulation.
+
+(* ---- non-vacuity: a = [1, "a", 2, [3]], o = {"k": 3, "a": a} once with ints and once with floats; evaluated on both sides *)
+Example C12_sim_heaps_related_not_equal : hsim heap_int heap_flt /\ heap_int <> heap_flt /\ respell_heap heap_int = heap_flt.
+Proof. exact (conj heaps_related (conj heaps_differ heap_flt_is_respelt)). Qed.
+Print Assumptions C12_sim_heaps_related_not_equal.
+Example C12_sim_arrayIndexOf_needle_respelt :
+  lib (U "arrayIndexOf") [VArr 0%nat; F 2] heap_int = (LOk (I 2), heap_int) /\
+  lib (U "arrayIndexOf") [VArr 0%nat; I 2] heap_flt = (LOk (I 2), heap_flt) /\
+  lib (U "arrayLastIndexOf") [VArr 0%nat; F 2] heap_int = (LOk (I 2), heap_int) /\
+  lib (U "arrayIndexOf") [VArr 0%nat; VArr 3%nat] (heap_int ++ [CArr [F 3]]) = (LOk (I 3), heap_int ++ [CArr [F 3]]).
+Proof. exact indexOf_both. Qed.
+Print Assumptions C12_sim_arrayIndexOf_needle_respelt.
+Example C12_sim_arrayPush_both :
+  lib (U "arrayPush") [VArr 0%nat; I 7] heap_int
+    = (LOk (VArr 0%nat), [CArr [I 1; VStr (U "a"); I 2; VArr 1%nat; I 7]; CArr [I 3]; CObj [(U "k", I 3); (U "a", VArr 0%nat)]]) /\
+  lib (U "arrayPush") [VArr 0%nat; F 7] heap_flt
+    = (LOk (VArr 0%nat), [CArr [F 1; VStr (U "a"); F 2; VArr 1%nat; F 7]; CArr [F 3]; CObj [(U "k", F 3); (U "a", VArr 0%nat)]]).
+Proof. exact push_both. Qed.
+Print Assumptions C12_sim_arrayPush_both.
+Example C12_sim_get_and_failures_both :
+  lib (U "arrayGet") [VArr 0%nat; F 0] heap_int = (LOk (I 1), heap_int) /\
+  lib (U "arrayGet") [VArr 0%nat; I 0] heap_flt = (LOk (F 1), heap_flt) /\
+  lib (U "objectGet") [VObj 2%nat; VStr (U "k")] heap_int = (LOk (I 3), heap_int) /\
+  lib (U "objectGet") [VObj 2%nat; VStr (U "k")] heap_flt = (LOk (F 3), heap_flt) /\
+  lib (U "arrayGet") [VArr 0%nat; F 4] heap_int = (LArgsErr VNull, heap_int) /\
+  lib (U "arrayGet") [VArr 0%nat; I 4] heap_flt = (LArgsErr VNull, heap_flt) /\
+  lib (U "arraySet") [VArr 0%nat; F 9; I 5] heap_int = (LArgsErr VNull, heap_int) /\
+  lib (U "arraySet") [VArr 0%nat; I 9; F 5] heap_flt = (LArgsErr VNull, heap_flt).
+Proof. exact get_both. Qed.
+Print Assumptions C12_sim_get_and_failures_both.
+Example C12_sim_history_both :
+  Forall2 opsim (hist (I 4) (F 4)) (hist (F 4) (I 4)) /\
+  run_ops (hist (I 4) (F 4)) ([VArr 0%nat], heap_int)
+    = Some ([VArr 0%nat; VArr 3%nat; VArr 3%nat; I 4; I 4], heap_int ++ [CArr [I 1; VStr (U "a"); I 2; VArr 1%nat]]) /\
+  run_ops (hist (F 4) (I 4)) ([VArr 0%nat], heap_flt)
+    = Some ([VArr 0%nat; VArr 3%nat; VArr 3%nat; I 4; F 4], heap_flt ++ [CArr [F 1; VStr (U "a"); F 2; VArr 1%nat]]).
+Proof. exact (conj hist_related history_both). Qed.
+Print Assumptions C12_sim_history_both.
+
+(* ---- refuted strengthenings ------------------------------------------------------------------------------------------- *)
+(* with `=` instead of `~`: arrayGet(a, 0) returns the int 1 from the int heap and the float 1.0 from the float heap *)
+Example C12_identical_results_refuted :
+  hsim heap_int heap_flt /\
+  fst (lib (U "arrayGet") [VArr 0%nat; I 0] heap_int) <> fst (lib (U "arrayGet") [VArr 0%nat; I 0] heap_flt).
+Proof. exact identical_results_refuted. Qed.
+Print Assumptions C12_identical_results_refuted.
+(* a function that PRINTS a number (none is in Model/LibSeq.v; stringNew lives in Model/LibCore.v): -0.0 is an integral
+   float whose int spelling is 0, but stringNew(-0.0) = "-0" and stringNew(0) = "0" (same for arrayJoin / jsonStringify /
+   systemLog in the implementation).  Every other integral float below 1e16 prints exactly as its int. *)
+Example C12_stringNew_neg_zero_refuted : forall cfg cb w,
+  nsim (NInt 0) (NFlt (S754_zero true)) /\
+  fst (BS.Model.LibCore.libcore cfg cb (U "stringNew") [BS.Model.Interp.VNum (NInt 0)] w)
+    = BS.Model.Interp.LVal (BS.Model.Interp.VStr (U "0")) /\
+  fst (BS.Model.LibCore.libcore cfg cb (U "stringNew") [BS.Model.Interp.VNum (NFlt (S754_zero true))] w)
+    = BS.Model.Interp.LVal (BS.Model.Interp.VStr (U "-0")).
+Proof. intros cfg cb w. exact (conj neg_zero_is_a_spelling_of_zero (stringNew_neg_zero_refuted cfg cb w)). Qed.
+Print Assumptions C12_stringNew_neg_zero_refuted.
+Theorem C12_value_string_integral_float : forall s m e z, integral (NFlt (S754_finite s m e)) z -> Z.abs z < 10 ^ 16 ->
+  BS.Model.Arith.num_to_str (NFlt (S754_finite s m e)) = BS.Model.Arith.ARes (Z_to_str z).
+Proof. exact num_to_str_integral. Qed.
+Print Assumptions C12_value_string_integral_float.
